@@ -22,10 +22,19 @@ def enter(name):
         ENTERED.add(name)
 
 
+_PKT = []
+
+
 def b_len(x):
     f = getattr(type(x), '__sym_len__', None)
     if f is not None:
         return f(x)
+    if not _PKT:
+        import scapy.packet
+        _PKT.append(scapy.packet.Packet)
+    if isinstance(x, _PKT[0]):
+        # Packet.__len__ is len(bytes(self)); builtin len() cannot return a symbolic value
+        return b_len(type(x).__bytes__(x))
     return len(x)
 
 
